@@ -790,6 +790,10 @@ func (c *Ctx) RuleNoPanicSites(fns map[*ssa.Function]bool, exceptions map[string
 					if x.Op == token.QUO || x.Op == token.REM {
 						if bt, ok := x.X.Type().Underlying().(*types.Basic); ok && bt.Info()&types.IsInteger != 0 {
 							if _, isC := x.Y.(*ssa.Const); !isC {
+								if c.nonZeroTableValue(x.Y, b) {
+									c.add("discharged", "C18.T1", fn, x.Pos(), "the divisor is an entry found in a literal map of the module whose values are all non-zero")
+									continue
+								}
 								c.add("violated", "C18.T1", fn, x.Pos(), "integer division by a non-constant")
 							}
 						}
@@ -1433,8 +1437,139 @@ func (c *Ctx) RuleMulOverflow(fn *ssa.Function) {
 				}
 			}
 		}
+		// the other exact idiom: `if v > math.MaxUint64/n { error }; return v*n` on uint64 — the product of two uint64
+		// fits iff v ≤ ⌊(2^64−1)/n⌋ (n ≥ 1)
+		for _, b := range fn.Blocks {
+			for _, in := range b.Instrs {
+				mul, ok := in.(*ssa.BinOp)
+				if !ok || mul.Op != token.MUL {
+					continue
+				}
+				if bt, isB := mul.Type().Underlying().(*types.Basic); !isB || bt.Kind() != types.Uint64 {
+					continue
+				}
+				guarded := false
+				for _, gb := range fn.Blocks {
+					iff, ok := gb.Instrs[len(gb.Instrs)-1].(*ssa.If)
+					if !ok {
+						continue
+					}
+					cmp, ok := iff.Cond.(*ssa.BinOp)
+					if !ok {
+						continue
+					}
+					x, y, op := cmp.X, cmp.Y, cmp.Op
+					if _, isQ := x.(*ssa.BinOp); isQ { // MaxUint64/n on the left: mirror
+						x, y, op = y, x, flip(op)
+					}
+					quo, isQ := y.(*ssa.BinOp)
+					if !isQ || quo.Op != token.QUO {
+						continue
+					}
+					k, isK := quo.X.(*ssa.Const)
+					if !isK || k.Value == nil || k.Value.ExactString() != "18446744073709551615" {
+						continue
+					}
+					// the same two factors
+					if !(x == mul.X && quo.Y == mul.Y || x == mul.Y && quo.Y == mul.X) {
+						continue
+					}
+					var safe, bad *ssa.BasicBlock
+					switch op {
+					case token.GTR: // v > Max/n: overflow
+						bad, safe = gb.Succs[0], gb.Succs[1]
+					case token.LEQ:
+						safe, bad = gb.Succs[0], gb.Succs[1]
+					default:
+						continue
+					}
+					if (safe == b || safe.Dominates(b)) && len(safe.Preds) == 1 && leadsOnlyToErrors(bad) {
+						guarded = true
+					}
+				}
+				// the product is what a nil-error return hands out
+				for _, rb := range fn.Blocks {
+					ret, ok := rb.Instrs[len(rb.Instrs)-1].(*ssa.Return)
+					if !ok || !isNilConst(ret.Results[len(ret.Results)-1]) || strip(ret.Results[0]) != ssa.Value(mul) {
+						continue
+					}
+					found = true
+					if guarded {
+						c.add("discharged", "C08.ovf", fn, ret.Pos(), "64-bit product returned only behind `factor > MaxUint64 / other factor` failing (exact overflow test)")
+					} else {
+						c.add("violated", "C08.ovf", fn, ret.Pos(), "64-bit product returned without a dominating exact overflow test (`v > math.MaxUint64/n`, strict, same factors): silent wrap-around or a legal value refused")
+					}
+				}
+			}
+		}
+		if found {
+			return
+		}
 		c.add("undecided", "C08.ovf", fn, fn.Pos(), "no bits.Mul64 found (other overflow idioms not yet prototyped)")
 	}
+}
+
+// nonZeroTableValue: v is the value of `v, ok := table[key]` read where ok is known to be true (b lies behind the true
+// edge of a test of ok), table a package-level map that only a package initialiser writes and whose literal holds
+// non-zero constants only.
+func (c *Ctx) nonZeroTableValue(v ssa.Value, b *ssa.BasicBlock) bool {
+	ex, ok := v.(*ssa.Extract)
+	if !ok || ex.Index != 0 {
+		return false
+	}
+	lk, ok := ex.Tuple.(*ssa.Lookup)
+	if !ok || !lk.CommaOk {
+		return false
+	}
+	g := globalLoad(lk.X)
+	if g == nil || !c.writtenOnlyByInit(g) {
+		return false
+	}
+	// found: behind the true edge of the ok flag
+	behind := false
+	for _, r := range *lk.Referrers() {
+		okx, isEx := r.(*ssa.Extract)
+		if !isEx || okx.Index != 1 {
+			continue
+		}
+		for _, r2 := range *okx.Referrers() {
+			if iff, isIf := r2.(*ssa.If); isIf {
+				if t := iff.Block().Succs[0]; len(t.Preds) == 1 && (t == b || t.Dominates(b)) {
+					behind = true
+				}
+			}
+		}
+	}
+	if !behind {
+		return false
+	}
+	// the literal: every MapUpdate on the map stored into g puts a non-zero constant
+	n := 0
+	for fn := range c.AllRepoFuncs() {
+		if fn.Name() != "init" || fn.Pkg != g.Pkg {
+			continue
+		}
+		for _, ib := range fn.Blocks {
+			for _, in := range ib.Instrs {
+				st, isSt := in.(*ssa.Store)
+				if !isSt || st.Addr != ssa.Value(g) {
+					continue
+				}
+				for _, r := range *st.Val.Referrers() {
+					mu, isMU := r.(*ssa.MapUpdate)
+					if !isMU || mu.Map != st.Val {
+						continue
+					}
+					k, isK := mu.Value.(*ssa.Const)
+					if !isK || k.Value == nil || k.Value.Kind() != constant.Int || constant.Sign(k.Value) == 0 {
+						return false
+					}
+					n++
+				}
+			}
+		}
+	}
+	return n > 0
 }
 
 // RuleSentinelOnlyInGuards: every load of the too-long sentinel happens on the too-long edge of a
